@@ -25,6 +25,7 @@ RULE = (
     "with a log op with arguments, or a scope name containing '%'; distinct = distinct program"
 )
 RULE += '; programs may re-seed the global random generator; identifiers of all scopes of a case must be pairwise distinct'
+RULE += '; records must pass through the Logger object given to the scope; further outermost scopes after the first tree was released'
 LEVEL_TEXT = (
     "Reference walk: for every log call exactly one record must be captured, on the expected logger (own, else nearest "
     "enclosing, else the one named after the outermost scope; root logger outside any scope) and no other, at the "
@@ -43,6 +44,8 @@ _HANDLER = P.Capture(SINK)
 
 
 class LogRun(P.Run):
+    retain_metrics = False  # identifiers are read in the completion callback; a finished tree is really gone afterwards
+
     def __init__(self, prog, loop):
         super().__init__(prog, loop)
         self.handler = _HANDLER
@@ -50,6 +53,10 @@ class LogRun(P.Run):
 
 def run_case(case) -> Outcome:
     out = Outcome()
+    if any(o.get("k") == "gc" for _, o in P.walk_blocks(case["body"])):
+        from hv.props.c03 import _gc_fence
+
+        _gc_fence()  # keeps the collections inside this case cheap
     root = logging.getLogger()
     old_level = root.level
     root.setLevel(logging.DEBUG)
@@ -183,6 +190,15 @@ def run_case(case) -> Outcome:
         exp_logger = expected_logger(ms)
         if r.name != exp_logger:
             out.violate("logger", "C19.logger/wrong-logger", f"log in scope {ms} went to {r.name!r}, expected {exp_logger!r}")
+        else:
+            # ... and through the very Logger OBJECT that was given (objects, not names, are what a scope is handed)
+            owner = next((q for q in reversed([*lineage(ms), ms]) if ops[q].get("logger")), None)
+            if getattr(r, "hv_logger_path", None) != owner:
+                out.violate(
+                    "logger",
+                    "C19.logger/another-logger-object-of-the-same-name",
+                    f"log in scope {ms}: the record did not pass through the logger object given to scope {owner} (passed through: {getattr(r, 'hv_logger_path', None)})",
+                )
         idn = ident.get(ms)
         if idn is not None:
             trace_id, label, identifier = idn
@@ -242,11 +258,22 @@ def strategy(tier):
         return st.one_of(a_scope, a_scope, s_scope)
 
     block = st.recursive(blocks(logop), blocks, max_leaves=6)
-    return st.builds(
+    one_tree = st.builds(
         lambda pre, n, lg, tr, b, post: {"body": [*pre, {"k": "scope", "mode": "async", "name": n, "state": [], "disp": None, "disp_obj": False, "logger": lg, "trace": tr, "completion": "sync", "body": b}, *post]},
         st.lists(logop, max_size=1), names, st.sampled_from([False, False, True, "late"]), trace,
         st.lists(st.one_of(logop, block, block), min_size=1, max_size=4), st.lists(logop, max_size=1),
     )  # fmt: skip
+
+    def then_more_trees(first):
+        # further outermost scopes AFTER the first tree has completed and been released (a server handling the next request):
+        # fresh trace ids again, identifiers still unique in the process
+        def tree(i):
+            leaf = {"k": "scope", "mode": "sync", "name": f"later{i}", "state": [], "disp": None, "logger": False, "trace": None, "completion": "sync", "body": [first["body"][-1] if first["body"][-1]["k"] == "log" else {"k": "yield"}]}
+            return {"k": "scope", "mode": "async", "name": f"next{i}", "state": [], "disp": None, "disp_obj": False, "logger": False, "trace": None, "completion": "sync", "body": [leaf, dict(leaf, name=f"later{i}b")]}
+
+        return {"body": [*first["body"], {"k": "yield"}, {"k": "gc"}, tree(1), {"k": "yield"}, {"k": "gc"}, tree(2)]}
+
+    return st.one_of(one_tree, one_tree, one_tree, one_tree.map(then_more_trees))
 
 
 def budget(tier):
